@@ -113,3 +113,6 @@ pub fn point(label: &'static str) {
         g = ng;
     }
 }
+
+/// Detached mailbox (`ActorProperties` + its receivers) for schedule replays.
+pub use crate::actor::actor_properties::verif_probe as mailbox;
